@@ -107,6 +107,9 @@ class Trajectory(PymatgenTrajectory):
         """
         super().to_positions()
         self.coords = np.mod(self.coords, 1)
+        # np.mod rounds tiny negative numbers (e.g. -1e-17) up to 1.0,
+        # which is outside the unit cell [0, 1)
+        self.coords[self.coords == 1] = 0
 
     def to_volume(self, resolution: float = 0.2) -> Volume:
         """Calculate density volume from a trajectory.
